@@ -35,3 +35,20 @@ Example C20_nonvacuous :
   running_maxes [0.5; 0.25; 0.75]%float 0 = [0.5; 0.75]%float /\
   length (writer [0.5; 0.25; 0.75]%float 0) = 12%nat.
 Proof. vm_compute. split; reflexivity. Qed.
+
+(* ---- two successive readers (Proofs/MonitorMono.v): for EVERY interleaving of the writer with a
+   first reader and a second reader that starts after the first has finished, neither fails, the
+   value seen never decreases, and a value once seen never disappears *)
+From BB Require Import Proofs.MonitorMono.
+Theorem C20_two_readers_safe : forall samples mx0 sched,
+  let '(s, r1, r2) := exec2 sched (writer samples mx0) fs0 RStart RStart in
+  r1 <> RDone RError /\ r2 <> RDone RError.
+Proof. exact two_readers_safe. Qed.
+Theorem C20_two_readers_monotone : forall samples mx0 sched s v1 v2,
+  exec2 sched (writer samples mx0) fs0 RStart RStart = (s, RDone (RSome v1), RDone (RSome v2)) ->
+  v1 = v2 \/ PrimFloat.ltb v1 v2 = true.
+Proof. exact two_readers_monotone. Qed.
+Theorem C20_published_never_disappears : forall samples mx0 sched s r1 r2 v1,
+  exec2 sched (writer samples mx0) fs0 RStart RStart = (s, r1, r2) ->
+  r1 = RDone (RSome v1) -> rdone r2 = true -> r2 <> RDone RNone.
+Proof. exact published_never_disappears. Qed.
